@@ -27,7 +27,11 @@ Dimensions varied besides the op interleaving: string content (empty / JSON-spec
 string SIZE (boundary-directed: varint 127/128, 16383/16384; record of 4095/4096/4097 bytes = bufio default buffer;
 8 KB; 32 KB = pebble memtable / WAL; 64 KB; thorough up to 256 KB and one 1 MB value), NUMBER OF RECORDS in a snapshot (1 .. 1000,
 thorough 5000, around 64/256/1024/4096), batch sizes 1 .. N, the io.Reader handed to RecoverFromSnapshot (whole
-snapshot per Read / short reads of 4096, 4095, 1000, 65536, 512, 7 bytes), concurrency of Lookup with every other call."""
+snapshot per Read / short reads of 4096, 4095, 1000, 65536, 512, 7 bytes), concurrency of Lookup with every other call,
+BUFFER LIFETIME (part of the scripts run with the executor laying the commands of an Update call out in one buffer per replica
+that is overwritten when the call has returned and reused: the machines own nothing of Entry.Cmd afterwards), DIVERGED
+HISTORIES (replicas writing their own entries, not prefixes of one log; snapshot hand-over at an equal applied index with
+different content, hashes read before and after the restore without an update in between)."""
 import os, re, functools, time
 from vlib import *
 
@@ -932,8 +936,8 @@ def monitor_case(c, obs, mode, hash_by_hist, fails, stats):
             fail(mon, "lookup of %r on a replica recovered from a JSON snapshot holding invalid UTF-8 returns %r, last value written is %r"
                  % (key, got, want), i, known=True)
         else:
-            fail(mon, "%s replica %d: lookup of %r returns %r but the last value written is %r%s"
-                 % (KIND_NAME[kind], r, key, got, want, " (after RecoverFromSnapshot)" if after_recover[r] else ""), i)
+            fail(mon, "%s replica %d: lookup of %s returns %s but the last value written is %s%s"
+                 % (KIND_NAME[kind], r, pyx(key), pyx(got), pyx(want), " (after RecoverFromSnapshot)" if after_recover[r] else ""), i)
 
     def check_hash(r, h, i):
         if last_hash[r] is not None and last_hash[r][0] != h:
